@@ -616,6 +616,17 @@ func sortedArtKeys(m map[string]map[string]string) []string {
 	return out
 }
 
+// c03Spell: one or two artifacts, each recorded under one or more spellings of its path.
+type c03Spell struct {
+	Names      []string `json:"names"`
+	Digests    []string `json:"digests"`
+	Clean      []string `json:"clean"`
+	Rules      string   `json:"rules"` // disallow | require | allow
+	OnProducts bool     `json:"on_products"`
+	ItemKind   string   `json:"item_kind"`
+	Wrapper    string   `json:"wrapper"`
+}
+
 func TestC03(t *testing.T) {
 	begin(t, "C03")
 	hx.Assume("reference interpreter written from the in-toto specification's rule algorithm; artifact names, patterns and prefixes are path-clean (the library cleans them as paths, the property defines no normalisation)")
@@ -631,5 +642,72 @@ func TestC03(t *testing.T) {
 	if !t.Failed() {
 		ck.Execute(t)
 	}
+	if t.Failed() {
+		return
+	}
+	// an artifact that a link records under several spellings of its path is still an artifact:
+	// whatever path clean-up the verifier does, it is there for DISALLOW and for REQUIRE
+	hx.Check[c03Spell]{
+		Property: "C03", Part: "spellings",
+		Rule:  "links that record one or two artifacts under 1-3 spellings each (a, ./a, x/../a; digests equal or different) with the rule lists [DISALLOW *] (must fail), [REQUIRE <clean name>, ALLOW *] and [ALLOW *] (must pass), as materials or products of a step or inspection; non-trivial = an artifact with two or more spellings; distinct by case JSON",
+		Cases: hx.Pick(300, 20000),
+		Gen: func(t *rapid.T) c03Spell {
+			var c c03Spell
+			for _, base := range rapid.SliceOfNDistinct(rapid.SampledFrom([]string{"a", "evil.sh", "src/b"}), 1, 2, rapid.ID[string]).Draw(t, "artifacts") {
+				forms := []string{base, "./" + base, "x/../" + base}
+				for _, f := range rapid.SliceOfNDistinct(rapid.SampledFrom(forms), 1, 3, rapid.ID[string]).Draw(t, "spellings") {
+					c.Names = append(c.Names, f)
+					c.Digests = append(c.Digests, rapid.SampledFrom([]string{"aa", "bb", "cc"}).Draw(t, "digest"))
+				}
+				c.Clean = append(c.Clean, base)
+			}
+			c.Rules = rapid.SampledFrom([]string{"disallow", "require", "allow"}).Draw(t, "rules")
+			c.OnProducts = rapid.Bool().Draw(t, "onproducts")
+			c.ItemKind = rapid.SampledFrom([]string{"step", "inspection"}).Draw(t, "itemkind")
+			c.Wrapper = rapid.SampledFrom([]string{"legacy", "dsse"}).Draw(t, "wrapper")
+			return c
+		},
+		Run: func(c c03Spell, r *hx.Rec) error {
+			arts := map[string]map[string]string{}
+			for i, n := range c.Names {
+				arts[n] = map[string]string{"sha256": c.Digests[i]}
+			}
+			if len(arts) == 0 {
+				return nil
+			}
+			var rules [][]string
+			wantOK := true
+			switch c.Rules {
+			case "disallow":
+				rules, wantOK = [][]string{{"DISALLOW", "*"}}, false
+			case "require":
+				rules = [][]string{{"REQUIRE", c.Clean[0]}, {"ALLOW", "*"}}
+			default:
+				rules = [][]string{{"ALLOW", "*"}}
+			}
+			cc := c03Case{ItemKind: c.ItemKind, Wrapper: c.Wrapper, MatRules: [][]string{{"ALLOW", "*"}}, ProdRules: [][]string{{"ALLOW", "*"}},
+				Links: map[string]hx.RLink{"item": {Materials: map[string]map[string]string{}, Products: map[string]map[string]string{}}}}
+			l := cc.Links["item"]
+			if c.OnProducts {
+				l.Products, cc.ProdRules = arts, rules
+			} else {
+				l.Materials, cc.MatRules = arts, rules
+			}
+			cc.Links["item"] = l
+			r.Label("rules=%s", c.Rules)
+			if len(c.Names) > len(c.Clean) {
+				r.Label("several-spellings")
+				r.Nontrivial()
+			}
+			err, pan := implVerifyItem(cc)
+			if pan != nil {
+				return fmt.Errorf("VerifyArtifacts panicked: %v", pan)
+			}
+			if (err == nil) != wantOK {
+				return fmt.Errorf("artifacts %v with rules %v: VerifyArtifacts returned %v, expected success=%v", c.Names, rules, err, wantOK)
+			}
+			return nil
+		},
+	}.Execute(t)
 	_ = json.Marshal
 }
